@@ -125,7 +125,11 @@
      C05_implementation_wins_with_one_persistence_set: ALWAYS when there is
        exactly one persistence predicate (class F12 needs two);
      C05_implementation_wins_example: the hypotheses are met by the game of
-       C05_liveness_example.
+       C05_liveness_example (one persistence predicate);
+     C05_implementation_wins_two_persistence_example: and by a game with two
+       different persistence predicates, the case in which the covering
+       hypothesis matters.  That hypothesis is a NARROW sufficient condition
+       (every winning state in y_{k,i} of its level for EVERY i).
    (a)-(f) combined; depends on Classical_Prop.classic (liveness, and the
    choice between "some position is blocked" and "none is").
 
@@ -679,9 +683,72 @@ Proof.
            Hf Sh Sg HnG HnH Hg (le_n 1) (le_n 1) (le_S _ _ (le_n 1)) Hw Hcov).
 Qed.
 
+(* non-vacuity of (g) with TWO persistence predicates, the only case in which
+   the hypotheses of C05_implementation_wins_if_traps_cover /
+   ..._unless_hold_goes_stale matter (with one, class F12 is empty:
+   C05_implementation_wins_with_one_persistence_set).  y in 0..2; the
+   component can only stay at y = 1; persistence predicates y <= 1 and
+   y >= 1 (different sets).  The winning region is {y = 1}, which lies in
+   both traps of its level: every hypothesis of the theorem is met at the
+   state (0, 1), so the implementation wins there.  (The covering hypothesis
+   is a NARROW sufficient condition: it asks every winning state to lie in
+   y_{k,i} of its level for EVERY i.  E.g. with y' <= y and persistence
+   predicates y <= 1, y = 0 every state is winning and it fails at y = 1.) *)
+Example C05_implementation_wins_two_persistence_example :
+  let E : bdd := fun v => true in
+  let S : bdd := fun v => Nat.eqb (vy v) 1 && Nat.eqb (vyp v) 1 in
+  let P1 : bdd := fun v => Nat.leb (vy v) 1 in
+  let P2 : bdd := fun v => Nat.leb 1 (vy v) in
+  let R : bdd := fun v => true in
+  let sol := Gr1Gen.solve_rabin_game 1 1 3 E S [P1; P2] [R] false false 10 in
+  (NV 1 1 3 <= 10 /\ Forall spred [P1; P2] /\ Forall spred [R] /\
+   length [R] <= 1 /\ length [P1; P2] < 3 /\ 0 < length [R] /\
+   last (fst (fst sol)) bfalse (stv 0 (0, 1)) = true /\
+   (* the two persistence predicates differ, and so do the losing states *)
+   P1 (sv 0 0 0) = true /\ P2 (sv 0 0 0) = false /\
+   map (fun yb => last (fst (fst sol)) bfalse (sv 0 0 yb)) [0; 1; 2] = [false; true; false] /\
+   (forall x yb h, x < 1 -> yb < 3 -> h < length [P1; P2] ->
+      last (fst (fst sol)) bfalse (sv 0 x yb) = true ->
+      nth h (nth (fidx (fst (fst sol)) (sv 0 x yb)) (snd (fst sol)) []) bfalse (sv 0 x yb) = true))
+  /\ (let f := RabinWins.impl_strategy 1 1 3 E S [P1; P2] [R] false false 10 3 1 0
+                 (length [P1; P2]) 0 in
+      cvalid 3 false f /\
+      forall p, inrange 1 3 p -> p 0 = (0, 1) -> cconsistent f p ->
+                win_rabin 0 E S [P1; P2] [R] false p).
+Proof.
+  cbv zeta.
+  set (E := fun _ : V => true).
+  set (S := fun v => Nat.eqb (vy v) 1 && Nat.eqb (vyp v) 1).
+  set (P1 := fun v => Nat.leb (vy v) 1). set (P2 := fun v => Nat.leb 1 (vy v)).
+  set (sol := Gr1Gen.solve_rabin_game 1 1 3 E S [P1; P2] [E] false false 10).
+  assert (Hf : NV 1 1 3 <= 10) by (vm_compute; repeat constructor).
+  assert (Sh : Forall spred [P1; P2]) by (repeat constructor; intros v; reflexivity).
+  assert (Sg : Forall spred [E]) by (repeat constructor; intros v; reflexivity).
+  assert (HnG : length [E] <= 1) by (cbn; lia).
+  assert (HnH : length [P1; P2] < 3) by (cbn; lia).
+  assert (Hg : 0 < length [E]) by (cbn; lia).
+  assert (Hw : last (fst (fst sol)) bfalse (stv 0 (0, 1)) = true) by (vm_compute; reflexivity).
+  assert (Hcov : forall x yb h, x < 1 -> yb < 3 -> h < length [P1; P2] ->
+            last (fst (fst sol)) bfalse (sv 0 x yb) = true ->
+            nth h (nth (fidx (fst (fst sol)) (sv 0 x yb)) (snd (fst sol)) []) bfalse (sv 0 x yb)
+              = true).
+  { intros x yb h Hx Hyb Hh Hwin. cbn [length] in Hh.
+    assert (x = 0) by lia. subst x.
+    assert (Hy : yb = 0 \/ yb = 1 \/ yb = 2) by lia.
+    assert (Hh' : h = 0 \/ h = 1) by lia.
+    destruct Hy as [-> | [-> | ->]]; destruct Hh' as [-> | ->];
+      first [vm_compute; reflexivity | vm_compute in Hwin; discriminate Hwin]. }
+  split.
+  - split; [exact Hf|]. split; [exact Sh|]. split; [exact Sg|]. split; [exact HnG|].
+    split; [exact HnH|]. split; [exact Hg|]. split; [exact Hw|].
+    split; [reflexivity|]. split; [reflexivity|]. split; [vm_compute; reflexivity|exact Hcov].
+  - exact (C05_implementation_wins_if_traps_cover 1 1 3 E S [P1; P2] [E] false false 10 3 1 0 (0, 1)
+             Hf Sh Sg HnG HnH Hg (le_n 1) (le_n 1) (le_S _ _ (le_n 2)) Hw Hcov).
+Qed.
+
 (* the game of the former witness of finding F3 (x, y Boolean, plus_one,
-   Mealy); base state x = 1, y = 0 (extended component value 6 = y 0, memory
-   _hold = none (1), _goal = 0) *)
+   Mealy); base state x = 1, y = 1 (extended component value 6 = 1 * 4 + 2:
+   base y = 6 / 4 = 1, memory 6 mod 4 = 2 = _hold 1 ("none") * 2 + _goal 0) *)
 Section Dead_end.
 Let E := of_table2 1 2 2 [(bitsN 4 15%N);
   (bitsN 4 12%N);
@@ -847,6 +914,7 @@ Print Assumptions C05_implementation_wins_if_traps_cover_exists.
 Print Assumptions C05_implementation_wins_with_one_persistence_set.
 Print Assumptions C05_implementation_wins_with_one_persistence_set_exists.
 Print Assumptions C05_implementation_wins_example.
+Print Assumptions C05_implementation_wins_two_persistence_example.
 Print Assumptions C05_repaired_dead_end_has_step.
 Print Assumptions C05_refuted_unrepaired_dead_end.
 Print Assumptions C05_refuted_stale_hold.
